@@ -150,6 +150,19 @@ CHECKS = {
         technique="TLA+ interpreter state machine model-checked by TLC; TLC-computed encodings replayed both ways; library encodings decoded by TLC",
         design="4/C04",
     ),
+    "C06": dict(
+        specs=["MetadataR.tla", "Metadata.tla", "MetadataIO.tla"],
+        text="MetadataR gives the byte-exact layout (59 fixed bytes + info, size = 51 + |info|) and the PKCS#1 v1.5 fit arithmetic; "
+        "Metadata.tla is the transport with symbolic RSA and fault actions (other key, flipped, random, truncated, wrong magic) "
+        "and TLC checks that metadata comes out only for the matching key on an untouched blob, ValueError otherwise, and that the "
+        "fit bound is sharp. TLC renders the expected plaintext for every field at its boundary values and for the info lengths "
+        "around the limit of 1024/2048-bit keys; the harness encrypts with the library, decrypts by hand (pow + own unpadding) to "
+        "compare the layout, decrypts with the library to compare field by field, feeds nine kinds of bad blobs, and has TLC "
+        "judge random full-width metadata and the key split of SHA-256.",
+        note="Trusted: TLC, MetadataR, the harness' manual RSA and hashlib. RSA/SHA numerics are not modelled in TLA+.",
+        technique="TLA+ transport model with symbolic RSA (TLC); TLC-rendered layouts replayed; transports judged by TLC",
+        design="4/C06",
+    ),
 }
 
 NOT_YET = "check not built yet in this round; planned in DESIGN.md section 4"
